@@ -242,6 +242,21 @@ func runC14() *RunResult {
 	for ti := 0; ti < nt; ti++ {
 		w.tasks = append(w.tasks, &Task{id: ti})
 	}
+	// fault kind "user function panics, caller recovers": the evaluation hit by the panic is not
+	// judged (the property says nothing about it), every evaluation after it is
+	if n > 0 && chance(25) {
+		for ti := 0; ti < nt; ti++ {
+			var pn [nFuncs]uint64
+			c := free.calls[rn(n)]
+			pn[c.Func] = 1 << uint(rn(4))
+			o := &Op{Kind: opCustom, Path: p, Cfg: cfg, Panics: pn}
+			o.Do = func(t *Task, o *Op) {
+				_, o.Got = safeCall(shared.Fn, doc.Val)
+				o.GotLog = perFuncLog(t.rec.Calls)
+			}
+			w.tasks[ti].ops = append(w.tasks[ti].ops, o)
+		}
+	}
 	for i, f := range plans {
 		f := f
 		exp := modelFunctions(V, p.SingleValued, fl, f, cfg.Variant)
@@ -295,7 +310,7 @@ func runC14() *RunResult {
 			case "jsonpath.ErrorFunctionFailed":
 				named := false
 				for _, fn := range exp.failedFn {
-					if strings.Contains(out, "function=."+fn+"()") {
+					if strings.Contains(out, "."+fn+"()") {
 						named = true
 					}
 				}
